@@ -106,4 +106,40 @@ Proof.
   reflexivity.
 Qed.
 
+(* three of the hypotheses follow from the others on a compiled initial state *)
+Lemma forallb_impl {A} (p q : A -> bool) l : (forall a, p a = true -> q a = true) -> forallb p l = true -> forallb q l = true.
+Proof. intros H. rewrite !forallb_forall. auto. Qed.
+
+Lemma fresh2_agv_load x : fresh2_b i x = true -> agv_load_b x = true.
+Proof.
+  unfold fresh2_b, agv_load_b. intros H. apply andb_true_iff in H. destruct H as [_ H]. revert H. apply forallb_impl.
+  intros ts Hts. apply andb_true_iff in Hts. destruct Hts as [H1 H2]. destruct (t_st ts); try discriminate. exact H2.
+Qed.
+
+Lemma nodep_depk x : nodep_b x = true -> depk_b x = true.
+Proof. unfold nodep_b, depk_b. apply forallb_impl. intros ts. destruct (t_occ ts); auto; discriminate. Qed.
+
+Lemma unclaimed_claims x : fresh2_b i x = true -> idle_unclaimed_b x = true -> claims_b x = true.
+Proof.
+  intros Fr Iu. unfold claims_b.
+  assert (E : claims x = []).
+  { unfold claims. assert (Hn : forall ts, In ts (s_trans x) -> t_job ts = None).
+    { intros ts Hin. apply In_nth_error in Hin. destruct Hin as [t Ht]. eapply (no_claims i); eauto. }
+    induction (s_trans x) as [|ts l IH]; simpl; auto. rewrite (Hn ts) by (left; reflexivity). simpl. apply IH. intros ts0 H0. apply Hn. right. exact H0. }
+  rewrite E. reflexivity.
+Qed.
+
+Theorem run_micro_clause_vector' tool0 fuel x0 joker0 ta r m a r' m' lg :
+  clock_b x0 = true -> wfs_b i x0 = true -> fresh2_b i x0 = true -> nodep_b x0 = true -> pre_ok_b x0 = true ->
+  agv_phase_b x0 = true -> outages_b x0 && outage_nonneg_b x0 = true ->
+  (forall m0 ms, nth_error (s_machs x0) m0 = Some ms -> m_tool ms = tool0 m0) ->
+  reach sigma i fuel x0 joker0 ta r m -> mw_step sigma i fuel r m a = MOk r' m' lg ->
+  forall tr y, In (tr, y) lg -> forallb (fun b => b) (clause_vector_live y) = true.
+Proof.
+  intros C W Fr Dn Po Ph Ou Ht. apply (run_micro_clause_vector tool0); auto.
+  - apply fresh2_agv_load; auto.
+  - apply unclaimed_claims; auto. apply clock_idle_unclaimed; auto.
+  - apply nodep_depk; auto.
+Qed.
+
 End AC.
